@@ -26,6 +26,11 @@ func c08(c *Ctx) {
 	c08R7(c)
 	c08R8(c)
 	cachedAuthoritative(c, "C08.R9")
+	mergeRule(c, "C08.R10")
+	// the interface slots the daemon declares sum to what the instance can attach (shared rule C19.R1);
+	// a retried create reuses its token, so a call that took effect is not repeated (shared rule C16.R2)
+	c19R1(c)
+	c16R2(c)
 	// trimming only removes idle, non-primary addresses (shared rule)
 	c03R2(c)
 	c03R6(c)
@@ -348,6 +353,7 @@ func c08R3(c *Ctx) {
 		return
 	}
 	du := undos[0]
+	successKeepsResult(c, "C08.R3", fn, du, "delete of the created interface")
 	sig := fn.Obj.Type().(*types.Signature)
 	arm := errArm(fn, lhs[1], create.End())
 	n := 0
@@ -760,4 +766,125 @@ func c08R8(c *Ctx) {
 			"must-pass on err != nil: Status().Update → StatusChanged.CompareAndSwap / NeedSyncOpenAPI.Store → exit", "path: "+p.describePath(w))
 	}
 	c.Floor("C08.R8", "status write-backs of the Node record in Reconcile", 1, n)
+}
+
+// mergeRule (shared by C02, C03, C08): the merge of the cloud's answer into the
+// record is exact in both directions and never touches what the record already
+// knows about an address:
+//   - every recorded address the cloud does not report is deleted (no exception
+//     for an owner: an address that left the interface is not the pod's any more);
+//   - every reported address the record lacks is added;
+//   - an entry the record already has is never stored over (its owner, UID and
+//     status are the record's).
+func mergeRule(c *Ctx, rule string) {
+	p := c.P
+	c.Rule(rule, "mergeIPMap: a recorded address absent from the cloud's answer is always deleted, a reported address absent from the record is always added, and an entry present in both is never stored over (owner, UID and status stay the record's)")
+	fn := p.Func(nodeCtlPkg, "mergeIPMap")
+	if fn == nil {
+		c.Unres(rule, "mergeIPMap", "not found")
+		return
+	}
+	info := fn.Info()
+	var remote, current types.Object
+	i := 0
+	for _, f := range fn.Decl.Type.Params.List {
+		for _, nm := range f.Names {
+			if _, isMap := info.Defs[nm].Type().Underlying().(*types.Map); isMap {
+				if i == 0 {
+					remote = info.Defs[nm]
+				} else {
+					current = info.Defs[nm]
+				}
+				i++
+			}
+		}
+	}
+	if remote == nil || current == nil {
+		c.Undec(rule, "mergeIPMap(remote, current)", p.Pos(fn.Decl), fn.Key(), "two map parameters", "signature changed")
+		return
+	}
+	// the lookup `_, ok := M[k]` inside a loop body over the other map
+	okOf := func(body *ast.BlockStmt, m types.Object) string {
+		name := ""
+		ast.Inspect(body, func(k ast.Node) bool {
+			as, ok := k.(*ast.AssignStmt)
+			if !ok || len(as.Lhs) != 2 || len(as.Rhs) != 1 {
+				return true
+			}
+			if ix, ok := ast.Unparen(as.Rhs[0]).(*ast.IndexExpr); ok && identObj(info, ix.X) == m {
+				name = exprString(as.Lhs[1])
+			}
+			return true
+		})
+		return name
+	}
+	nDel, nAdd := 0, 0
+	ast.Inspect(fn.Decl.Body, func(nd ast.Node) bool {
+		rs, ok := nd.(*ast.RangeStmt)
+		if !ok {
+			return true
+		}
+		switch identObj(info, rs.X) {
+		case current:
+			ok := okOf(rs.Body, remote)
+			ast.Inspect(rs.Body, func(k ast.Node) bool {
+				call, isC := isBuiltinCall(info, exprOf(k), "delete")
+				if !isC || len(call.Args) != 2 || identObj(info, call.Args[0]) != current {
+					return true
+				}
+				nDel++
+				if ok == "" || ok == "_" {
+					c.Undec(rule, "mergeIPMap: deletion decided by the cloud's answer", p.Pos(call), fn.Key(), "_, ok := remote[k]", "lookup not found")
+					return true
+				}
+				c.Require(rule, "mergeIPMap: only addresses the cloud no longer reports are deleted", fn, call, "!"+ok, nil)
+				c.RequireReached(rule, "mergeIPMap: every address the cloud no longer reports is deleted", fn, rs.Body, call, "!"+ok, nil)
+				return true
+			})
+		case remote:
+			ok := okOf(rs.Body, current)
+			ast.Inspect(rs.Body, func(k ast.Node) bool {
+				as, isA := k.(*ast.AssignStmt)
+				if !isA || len(as.Lhs) != 1 {
+					return true
+				}
+				ix, isI := ast.Unparen(as.Lhs[0]).(*ast.IndexExpr)
+				if !isI || identObj(info, ix.X) != current {
+					return true
+				}
+				nAdd++
+				if ok == "" || ok == "_" {
+					c.Undec(rule, "mergeIPMap: addition decided by the record", p.Pos(as), fn.Key(), "_, ok := current[k]", "lookup not found")
+					return true
+				}
+				c.Require(rule, "mergeIPMap: an entry the record already has is never stored over", fn, as, "!"+ok, nil)
+				c.RequireReached(rule, "mergeIPMap: every reported address the record lacks is added", fn, rs.Body, as, "!"+ok, nil)
+				return true
+			})
+		}
+		return true
+	})
+	// stores into the record's map outside the loop over the cloud's answer
+	ast.Inspect(fn.Decl.Body, func(nd ast.Node) bool {
+		as, ok := nd.(*ast.AssignStmt)
+		if !ok {
+			return true
+		}
+		for _, l := range as.Lhs {
+			if ix, ok := ast.Unparen(l).(*ast.IndexExpr); ok && identObj(info, ix.X) == current {
+				inRemoteLoop := false
+				for _, x := range pathTo(fn.Decl.Body, as) {
+					if rs, ok := x.(*ast.RangeStmt); ok && identObj(info, rs.X) == remote {
+						inRemoteLoop = true
+					}
+				}
+				if !inRemoteLoop {
+					c.Bad(rule, "mergeIPMap: the record is written only while merging the cloud's answer", p.Pos(as), fn.Key(), "stores into the record's map stand in the loop over the cloud's answer", "store elsewhere")
+				}
+			}
+		}
+		return true
+	})
+	c.Floor(rule, "deletions in mergeIPMap", 1, nDel)
+	c.Floor(rule, "additions in mergeIPMap", 1, nAdd)
 }
